@@ -65,7 +65,7 @@ MUTATIONS = [
     dict(id="c08-rg-wrong-owner", file="cirkit/templates/region_graph/graph.py", old="            partition2_inputs = other.node_inputs(partition2)\n", new="            partition2_inputs = self.node_inputs(partition2)\n", expect={"C08": ["R7o:cirkit.templates.region_graph.graph.RegionGraph.is_compatible:self.node_inputs(partition2)"]}),
     dict(id="c04-pairing-subset-sort", file=FUN, old="key=lambda sl: tuple(sorted(sc1.layer_scope(sl)))", new="key=sc1.layer_scope", expect={"C04": ["R7a:cirkit.symbolic.functional.multiply"]}),
     dict(id="c04-kronecker-operands-swapped", file=OPS, old="KroneckerParameter(sl1.weight.shape, sl2.weight.shape), sl1.weight.ref(), sl2.weight.ref()", new="KroneckerParameter(sl1.weight.shape, sl2.weight.shape), sl2.weight.ref(), sl1.weight.ref()", expect={"C04": ["R2f:cirkit.symbolic.operators.multiply_sum_layers"]}),
-    dict(id="c20-hmm-by-position", file="cirkit/templates/pgms.py", old="        input_sl = input_factories[ordering[i]](Scope([ordering[i]]), num_latent_states)\n", new="        input_sl = input_factories[i](Scope([ordering[i]]), num_latent_states)\n", expect={"C20": ["R13a:cirkit.templates.pgms.hmm:input_factories@Scope([ordering[i]])"]}),
+    dict(id="c20-hmm-by-position", file="cirkit/templates/pgms.py", old="        input_sl = input_factories[ordering[i]](Scope([ordering[i]]), num_latent_states)\n", new="        input_sl = input_factories[i](Scope([ordering[i]]), num_latent_states)\n", expect={"C20": ["R13a:cirkit.templates.pgms.hmm:input_factories@Scope([ordering[i]])"]}, allow_others=True),
     dict(id="c20-tt-enumerate-offset", file="cirkit/templates/tensor_factorizations.py", old="for i, dim in enumerate(shape[1:-1], start=1)", new="for i, dim in enumerate(shape[2:-1], start=1)", expect={"C20": ["R13a:cirkit.templates.tensor_factorizations.tensor_train:shape[2:-1]"]}),
     dict(id="c11-logits-rank2", file="cirkit/backend/torch/layers/input.py", old="        return torch.logsumexp(logits, dim=2).unsqueeze(dim=1)\n", new="        return torch.logsumexp(logits, dim=2)\n", expect={"C11": ["R4:cirkit.backend.torch.layers.input.TorchCategoricalLayer:log_partition_function:return#1"]}),
     dict(id="c11-gaussian-rank2", file="cirkit/backend/torch/layers/input.py", old="        return log_partition.unsqueeze(dim=1)  # (F, 1, K)\n", new="        return log_partition\n", expect={"C11": ["R4:cirkit.backend.torch.layers.input.TorchGaussianLayer:log_partition_function:return#1"]}),
@@ -75,7 +75,7 @@ MUTATIONS = [
     dict(id="c02-gather-wrong-variable", file="cirkit/backend/torch/graph/folding.py", old="        ss = [type(module), *module.fold_settings]\n", new="        ss = [type(m), *m.fold_settings]\n", expect={"C02": ["R3d:cirkit.backend.torch.graph.folding.group_foldable_modules:gather"], "C06": ["R3d:cirkit.backend.torch.graph.folding.group_foldable_modules:gather"]}),
     dict(id="c02-interior-output-fused", file="cirkit/backend/torch/graph/optimize.py", old="            if any(m in outputs for m in match.entries[1:]):\n                continue\n", new="", expect={"C02": ["R12a:cirkit.backend.torch.graph.optimize.match_optimization_patterns:interior-output"]}),
     dict(id="c14-index-ignores-dim", file=TNODES, old="        return torch.index_select(x, self.dim + 1, self._indices)\n", new="        return x[:, self._indices]\n", expect={"C14": ["R5b:cirkit.backend.torch.parameters.nodes.TorchIndexParameter:used:dim"]}),
-    dict(id="c14-reduce-sum-unshifted", file=TNODES, old="        return torch.sum(x, dim=self.dim + 1)\n", new="        return torch.sum(x, dim=self.dim)\n", expect={"C14": ["R5a:"]}),
+    dict(id="c14-reduce-sum-unshifted", file=TNODES, old="        return torch.sum(x, dim=self.dim + 1)\n", new="        return torch.sum(x, dim=self.dim)\n", expect={"C14": ["R5a:"]}, allow_others=True),
     dict(id="c14-softmax-axis-dropped", file=RPAR, old="    return TorchSoftmaxParameter(in_shape, dim=p.axis)\n", new="    return TorchSoftmaxParameter(in_shape)\n", expect={"C14": ["R1c:cirkit.backend.torch.rules.parameters.compile_softmax_parameter"], "C01": ["R1c:cirkit.backend.torch.rules.parameters.compile_softmax_parameter"], "C12": ["R1c:cirkit.backend.torch.rules.parameters.compile_softmax_parameter"]}),
     dict(id="c01-categorical-num-categories-dropped", file=RLAY, old="        num_categories=sl.num_categories,\n", new="", expect={"C01": ["R1c:cirkit.backend.torch.rules.layers.compile_categorical_layer"]}),
     dict(id="c06-concatenate-reversed", file=FUN, old="    for sc in scs:\n", new="    for sc in reversed(scs):\n", expect={"C06": ["R7e:cirkit.symbolic.functional.concatenate:operand-order"]}),
@@ -210,7 +210,7 @@ MUTATIONS += [
     dict(id="r4b-gaussian-unsqueeze", file=TINPUT, old="        mean = self.mean().unsqueeze(dim=1)  # (F, 1, K)", new="        mean = self.mean().unsqueeze(dim=2)  # (F, 1, K)", expect={"C01": ["R4b:cirkit.backend.torch.layers.input.TorchGaussianLayer:"]}, allow_others=True),
     dict(id="r4b-constant-expand", file=TINPUT, old="        value = value.unsqueeze(dim=1).expand(value.shape[0], batch_size, value.shape[1])", new="        value = value.unsqueeze(dim=0).expand(value.shape[0], batch_size, value.shape[1])", expect={"C01": ["R4b:cirkit.backend.torch.layers.input.TorchConstantValueLayer:forward"]}),
     dict(id="r4b-tucker-view", file=TOPT, old="            -1,\n            self.num_output_units,\n            *(self.num_input_units for _ in range(self.arity)),", new="            -1,\n            self.num_input_units,\n            *(self.num_input_units for _ in range(self.arity)),", expect={"C01": ["R4b:cirkit.backend.torch.layers.optimized.TorchTuckerLayer:forward"]}, allow_others=True),
-    dict(id="r4b-tensordot-permute", file=TOPT, old="        x = x.permute(0, 1, 3, 2)", new="        x = x.permute(0, 1, 2, 3)", expect={"C01": ["R4b:cirkit.backend.torch.layers.optimized.TorchTensorDotLayer:forward"]}),
+    dict(id="r4b-tensordot-permute", file=TOPT, old="        x = x.permute(0, 1, 3, 2)", new="        x = x.permute(0, 1, 2, 3)", expect={"C01": ["R4b:cirkit.backend.torch.layers.optimized.TorchTensorDotLayer:forward"]}, allow_others=True),
     # R4c / R4q: marginal queries
     dict(id="r4c-cat-logpart-axis", file=TINPUT, old="        return torch.logsumexp(logits, dim=2).unsqueeze(dim=1)", new="        return torch.logsumexp(logits, dim=1).unsqueeze(dim=1)", expect={"C11": ["R4c:cirkit.backend.torch.layers.input.TorchCategoricalLayer:"]}, allow_others=True),
     dict(id="r4q-mask-permute", file=QUER, old="        integration_mask = integration_mask.permute([1, 0, 2])", new="        integration_mask = integration_mask.permute([0, 1, 2])", expect={"C11": ["R4q:cirkit.backend.torch.queries.IntegrateQuery._layer_fn"]}),
@@ -284,7 +284,7 @@ MUTATIONS += [
     dict(id="r7n-scope-identity", patch="seeded/C16b/patch.diff", expect={"C16": ["R7n:cirkit.templates.region_graph.graph.RegionGraph.dump"]}),
     dict(id="r6e-cached-factory", patch="seeded/C18a/patch.diff", expect={"C18": ["R6e:cirkit.symbolic.registry.OperatorRegistry.from_default_rules"]}),
     dict(id="r10h-stale-memo", patch="seeded/C20b/patch.diff", expect={"C20": ["R10h:cirkit.templates.logic.graph.LogicalCircuit"]}),
-    dict(id="r10g-evidence-cache", patch="seeded/C06b/patch.diff", expect={"C06": ["R10g:"], "C10": ["R10g:"]}),
+    dict(id="r10g-evidence-cache", patch="seeded/C06b/patch.diff", expect={"C06": ["R10g:"], "C10": ["R10g:"], "C19": ["R10g:"]}),
     dict(id="r3d-evidence-key", patch="seeded/C06a/patch.diff", expect={"C06": ["R3d:"], "C02": ["R3d:"]}),
     dict(id="q-hmm-enumerate-ordering", file="cirkit/templates/pgms.py", old="    input_sl = input_factories[ordering[-1]](Scope([ordering[-1]]), num_latent_states)", new="    last_var = ordering[-1]\n    input_sl = input_factories[last_var](Scope([last_var]), num_latent_states)", expect={}, quiet=True),
     dict(id="q-mask-enumerate-alias", file="cirkit/backend/torch/queries.py", old="        num_idxs = sum(len(s) for s in batch_integrate_vars)", new="        num_idxs = sum(map(len, batch_integrate_vars))", expect={}, quiet=True),
